@@ -12,3 +12,12 @@ pub mod ipc {
 // io::Error::from(UnixError) (the From impl just above these in the repository)
 #[verifier::external_body]
 pub fn io_error_from(e: UnixError) -> (r: std::io::Error) { unimplemented!() }
+
+// the OS error code an io::Error carries (None for errors built from a kind and a payload)
+pub uninterp spec fn io_raw(e: std::io::Error) -> Option<i32>;
+pub assume_specification [std::io::Error::from_raw_os_error] (code: i32) -> (r: std::io::Error)
+    ensures io_raw(r) == Some(code);
+// io::Error::new(io::ErrorKind::ConnectionReset, unix_error)
+#[verifier::external_body]
+pub fn io_error_connection_reset(payload: UnixError) -> (r: std::io::Error) ensures io_raw(r) is None { unimplemented!() }
+pub struct UnixErrorToIo;
